@@ -1890,10 +1890,20 @@ func (query *Query) IsDual() bool {
 }
 
 func RegexComparison(left any, pattern string) (bool, error) {
-	regExpr := strings.ReplaceAll(strings.ToLower(pattern), "_", ".")
-	regExpr = strings.ReplaceAll(regExpr, "%", ".*")
-	regExpr = "^" + regExpr + "$"
-	return regexp.Match(regExpr, []byte(strings.ToLower(fmt.Sprintf("%v", left))))
+	var builder strings.Builder
+	builder.WriteString("(?s)^")
+	for _, r := range strings.ToLower(pattern) {
+		switch r {
+		case '_':
+			builder.WriteString(".")
+		case '%':
+			builder.WriteString(".*")
+		default:
+			builder.WriteString(regexp.QuoteMeta(string(r)))
+		}
+	}
+	builder.WriteString("$")
+	return regexp.Match(builder.String(), []byte(strings.ToLower(fmt.Sprintf("%v", left))))
 }
 
 func RegisterFunction(name string, function Function) {
